@@ -306,15 +306,16 @@ Section Series.
     intros Hx fuel. induction fuel as [|fuel IH]; intros n Ws Hlen Hn Hfuel Hinv.
     - (* no fuel: then n > d and the loop test fails *)
       cbn [outerexp_loop]. replace (Z.leb (Z.of_nat n) (Z.of_nat d)) with false by (symmetry; apply Z.leb_gt; lia).
-      exists Ws. split; [reflexivity|]. rewrite Hlen. repeat split; try lia; try (apply Hinv; assumption). intros k Hk. lia.
-    - cbn [outerexp_loop]. destruct (Z.leb (Z.of_nat n) (Z.of_nat d)) eqn:Ej.
+      exists Ws. split; [reflexivity|]. rewrite Hlen. refine (conj _ (conj _ (conj Hinv _))); try lia.
+    - cbn [outerexp_loop s_ops]. destruct (Z.leb (Z.of_nat n) (Z.of_nat d)) eqn:Ej.
       + apply Z.leb_le in Ej. assert (Hnd : (n <= d)%nat) by lia.
         set (Wj := divn_mv SO (F (op (last Ws []) x)) (Z.of_nat n)).
         assert (HWj : wf Wj /\ Wj == wterm x n).
         { unfold Wj. rewrite divn_mv_scal by exact Hn. rewrite last_nth, Hlen.
-          destruct (Hinv (n - 1)%nat ltac:(lia)) as [Hw He].
+          destruct n as [|m]; [lia|]. replace (S m - 1)%nat with m by lia.
+          destruct (Hinv m ltac:(lia)) as [Hw He].
           split; [wfs|].
-          replace n with (S (n - 1)) at 3 by lia. rewrite (wterm_succ x (n - 1) Hx).
+          rewrite (wterm_succ x m Hx).
           apply (RT scal_congr). rewrite (EF _ (Wop _ _)).
           apply (RT op_congr); try assumption; [wfs | reflexivity]. }
         destruct HWj as [HWjw HWje].
@@ -327,12 +328,12 @@ Section Series.
           -- intros k Hk. destruct (Nat.eq_dec k n) as [->|Hne].
              ++ rewrite app_nth2 by lia. rewrite Hlen, Nat.sub_diag. cbn [nth]. split; assumption.
              ++ rewrite app_nth1 by lia. apply Hinv. lia.
-          -- exists Ws'. split; [exact E|]. repeat split; try lia; try (apply H3; assumption). apply H4.
-        * exists Ws. split; [reflexivity|]. rewrite Hlen. repeat split; try lia; try (apply Hinv; assumption).
+          -- exists Ws'. split; [exact E|]. refine (conj _ (conj _ (conj H3 H4))); lia.
+        * exists Ws. split; [reflexivity|]. rewrite Hlen. refine (conj _ (conj _ (conj Hinv _))); try lia.
           intros k Hk. apply (wterm_zero_after x n k Hx); [|lia].
           destruct Wj; [symmetry; exact HWje | discriminate].
       + apply Z.leb_gt in Ej. exists Ws. split; [reflexivity|]. rewrite Hlen.
-        repeat split; try lia; try (apply Hinv; assumption). intros k Hk. lia.
+        refine (conj _ (conj _ (conj Hinv _))); try lia.
   Qed.
 
   (* the number of the last term the loop can reach: k = alg.d, but Ws starts as [1, x] *)
@@ -354,7 +355,7 @@ Section Series.
     - intros k Hk. destruct k as [|[|k]]; [| |lia]; cbn [nth].
       + split; [wfs | symmetry; apply wterm_0].
       + split; [exact Hx | symmetry; apply wterm_1, Hx].
-    - exists Ws'. split; [exact E|]. unfold last_term. repeat split; try lia; try (apply H3; assumption).
+    - exists Ws'. split; [exact E|]. unfold last_term. refine (conj _ (conj H3 _)); try lia.
       intros k Hk. apply H4. lia.
   Qed.
 
@@ -379,7 +380,7 @@ Section Series.
   Proof.
     intros Hne Hw. destruct Ws as [|w r]; [congruence|]. inversion Hw as [|? ? Hw0 Hr]; subst.
     destruct (sum_mvs_spec w r Hw0 Hr) as [H1 H2].
-    eexists. split; [reflexivity|]. split; [exact H1|].
+    exists (fold_left (fun acc w' => F (add acc w')) r w). split; [reflexivity|]. split; [exact H1|].
     apply eqv; [exact H1 | wfs |]. intros K HK. rewrite (H2 K HK), cf_msum by assumption. reflexivity.
   Qed.
 
@@ -414,13 +415,13 @@ Section Series.
   Proof.
     intros Hx Hinv Hz Hne Hcnt Hsel Hrest.
     assert (Hw : Forall wf sub_).
-    { apply Forall_forall. intros y Hy. destruct (In_nth _ _ [] Hy) as [i [Hi E]]. subst y.
+    { apply Forall_forall. intros y Hy. destruct (In_nth _ _ ([] : mv R) Hy) as [i [Hi E]]. subst y.
       destruct (Hsel i Hi) as [E Hs]. rewrite E. apply Hinv, Hs. }
     destruct (sum_mvs_msum sub_ Hne Hw) as [s [E [Hs Hse]]].
     exists s. split; [exact E|]. split; [exact Hs|].
     rewrite Hse. apply eqv; [wfs | wfs |]. intros K HK.
     rewrite cf_msum by assumption.
-    rewrite cf_msum; [|assumption|].
+    rewrite cf_msum; [| |assumption].
     2:{ apply Forall_forall. intros y Hy. apply in_map_iff in Hy. destruct Hy as [i [<- _]]. wfs. }
     rewrite map_map.
     rewrite (map_nth_seq sub_ []) at 1. rewrite map_map.
@@ -482,7 +483,7 @@ Section Series.
   Proof.
     intros Hx. destruct (outerexp_terms_spec x Hx) as [Ws [E [Hlen [Hinv Hz]]]].
     assert (Hw : Forall wf Ws).
-    { apply Forall_forall. intros y Hy. destruct (In_nth _ _ [] Hy) as [i [Hi Ey]]. subst y. apply Hinv, Hi. }
+    { apply Forall_forall. intros y Hy. destruct (In_nth _ _ ([] : mv R) Hy) as [i [Hi Ey]]. subst y. apply Hinv, Hi. }
     unfold outerexp_with, outersin_with, outercos_with. rewrite E. cbn [bind].
     destruct (sum_mvs_msum Ws) as [e [Ee [He1 He2]]]; [destruct Ws; [cbn in Hlen; lia | discriminate] | exact Hw |].
     destruct (sum_mvs_msum (odds Ws)) as [s [Es [Hs1 Hs2]]].
@@ -507,7 +508,7 @@ Section Series.
   Proof.
     intros Hx. destruct (outerexp_terms_spec x Hx) as [Ws [E [Hlen [Hinv Hz]]]].
     assert (Hw : Forall wf Ws).
-    { apply Forall_forall. intros y Hy. destruct (In_nth _ _ [] Hy) as [i [Hi Ey]]. subst y. apply Hinv, Hi. }
+    { apply Forall_forall. intros y Hy. destruct (In_nth _ _ ([] : mv R) Hy) as [i [Hi Ey]]. subst y. apply Hinv, Hi. }
     unfold outersin_with, outercos_with, outertan_with. rewrite E. cbn [bind].
     destruct (sum_mvs_msum (odds Ws)) as [s [Es [Hs1 Hs2]]].
     { intros Hc. apply (f_equal (@length _)) in Hc. rewrite length_odds in Hc. cbn [length] in Hc. lia. }
@@ -519,10 +520,641 @@ Section Series.
     split; [reflexivity|]. split; [reflexivity|]. split; [exact Hs1|]. split; [exact Hc1|]. split; [reflexivity|].
     intros ci Eci Hci Hinvl. rewrite Eci. cbn [bind]. eexists. split; [reflexivity|].
     split; [wfs|]. split; [apply EF; wfs|].
-    rewrite (RT gp_congr A _ (gp s ci) c c) by (try wfs; try assumption; [apply EF; wfs | reflexivity]).
-    rewrite (RA gp_assoc s ci c) by assumption.
-    rewrite (RT gp_congr A s s _ one) by (try wfs; try assumption; reflexivity).
+    transitivity (gp (gp s ci) c).
+    { apply (RT gp_congr); try wfs; try assumption; [apply EF; wfs | reflexivity]. }
+    transitivity (gp s (gp ci c)).
+    { apply (RA gp_assoc); assumption. }
+    transitivity (gp s one).
+    { apply (RT gp_congr); try wfs; try assumption; reflexivity. }
     apply (RA gp_one_r). exact Hs1.
   Qed.
   End WithFilter.
+
+  (* for an x without scalar part the terms beyond the dimension vanish: the finite sum IS the outer
+     exponential series, whatever upper limit N >= d one takes *)
+  Lemma op_wpow_comm x m : wf x -> op x (wpow x m) == op (wpow x m) x.
+  Proof.
+    intros Hx. induction m as [|m IH]; cbn [wpow].
+    - rewrite (RA op_one_r x Hx). symmetry. apply (RA op_one_l x Hx).
+    - transitivity (op (op x (wpow x m)) x).
+      { symmetry. apply (RA op_assoc); auto with wfdb. }
+      apply (RT op_congr); auto with wfdb. reflexivity.
+  Qed.
+  Lemma wpow_op_pow x k : wf x -> wpow x k == op_pow rO rI radd rmul rsub ropp A k x.
+  Proof.
+    intros Hx. induction k as [|k IH]; cbn [wpow op_pow]; [reflexivity|].
+    transitivity (op x (wpow x k)); [symmetry; apply op_wpow_comm, Hx|].
+    apply (RT op_congr); auto with wfdb.
+    - destruct k; cbn [op_pow]; auto with wfdb.
+    - reflexivity.
+  Qed.
+  Lemma wterm_beyond_dim x k : wf x -> min_grade rO rI radd rmul rsub ropp A 1 x -> (d < k)%nat -> wterm x k == [].
+  Proof.
+    intros Hx Hg Hk. unfold wterm.
+    assert (H0 : wpow x k == []).
+    { apply (outerexp_break_sound x (S d) k Hx); [|lia].
+      rewrite (wpow_op_pow x (S d) Hx). apply (RA op_nilpotent_grade); assumption. }
+    rewrite (RT scal_congr _ _ _ H0). reflexivity.
+  Qed.
+  Theorem outerexp_full_series F x N : filter_ok F -> wf x -> min_grade rO rI radd rmul rsub ropp A 1 x -> (d <= N)%nat ->
+    exists r, outerexp_with SO F A x = Ok r /\ wf r /\ r == msum (map (wterm x) (seq 0 (S N))).
+  Proof.
+    intros HF Hx Hg HN. destruct (outerexp_spec F HF x Hx) as [r [E [Hr He]]].
+    exists r. split; [exact E|]. split; [exact Hr|]. rewrite He.
+    assert (HW : forall n, Forall wf (map (wterm x) (seq 0 n))).
+    { intros n. apply Forall_forall. intros y Hy. apply in_map_iff in Hy. destruct Hy as [i [<- _]]. auto with wfdb. }
+    apply eqv; auto with wfdb. intros K HK. rewrite !cf_msum by (try apply HW; assumption).
+    rewrite !map_map.
+    rewrite <- (rsum_seq_extend (fun k => cf K (wterm x k)) (S d) (S last_term)).
+    - apply rsum_seq_extend; [lia|]. intros k Hk. rewrite (wterm_beyond_dim x k Hx Hg ltac:(lia) K). reflexivity.
+    - unfold last_term. lia.
+    - intros k Hk. rewrite (wterm_beyond_dim x k Hx Hg ltac:(lia) K). reflexivity.
+  Qed.
+
+  (* ================= 2. powers ================= *)
+
+  (* the n-fold product x * x * ... * x (left-nested, as the loop builds it); gpow x 0 = 1 *)
+  Fixpoint gpow (x : mv R) (n : nat) : mv R := match n with 0%nat => one | S m => gp (gpow x m) x end.
+  Lemma Wgpow x n : wf (gpow x n).
+  Proof. destruct n; cbn [gpow]; auto with wfdb. Qed.
+  Hint Resolve Wgpow : wfdb.
+
+  Lemma pow_loop_spec x : wf x -> forall m acc k, wf acc -> acc == gpow x k ->
+    wf (pow_loop SO A x m acc) /\ pow_loop SO A x m acc == gpow x (k + m).
+  Proof.
+    intros Hx m. induction m as [|m IH]; intros acc k Ha He; cbn [pow_loop s_ops].
+    - rewrite Nat.add_0_r. split; assumption.
+    - replace (k + S m)%nat with (S k + m)%nat by lia. apply IH; [auto with wfdb|].
+      cbn [gpow]. apply (RT gp_congr); auto with wfdb. reflexivity.
+  Qed.
+
+  Variables (invf sqrtf : mv R -> res (mv R)).
+  (* x ** 0 = 1 *)
+  Theorem pow_zero x : pow_model SO invf sqrtf A x (PInt 0) = Ok one.
+  Proof. reflexivity. Qed.
+  (* x ** n is the n-fold product *)
+  Theorem pow_spec x n : wf x ->
+    exists r, pow_model SO invf sqrtf A x (PInt (Z.of_nat n)) = Ok r /\ wf r /\ r == gpow x n.
+  Proof.
+    intros Hx. destruct n as [|n].
+    - exists one. split; [reflexivity|]. split; [auto with wfdb | reflexivity].
+    - unfold pow_model. replace (Z.eqb (Z.of_nat (S n)) 0) with false by (symmetry; apply Z.eqb_neq; lia).
+      replace (Z.ltb (Z.of_nat (S n)) 0) with false by (symmetry; apply Z.ltb_ge; lia).
+      replace (Z.to_nat (Z.of_nat (S n) - 1)) with n by lia.
+      eexists. split; [reflexivity|].
+      destruct (pow_loop_spec x Hx n x 1%nat Hx) as [H1 H2].
+      + cbn [gpow]. symmetry. apply (RA gp_one_l x Hx).
+      + split; [exact H1 | exact H2].
+  Qed.
+  (* x ** -n = (x.inv()) ** n, and the error of inv() is the error of the power *)
+  Theorem pow_neg x xi n : (0 < n) -> invf x = Ok xi ->
+    pow_model SO invf sqrtf A x (PInt (- n)) = pow_model SO invf sqrtf A xi (PInt n).
+  Proof.
+    intros Hn Hi. unfold pow_model. rewrite Hi. cbn [bind].
+    replace (Z.eqb (- n) 0) with false by (symmetry; apply Z.eqb_neq; lia).
+    replace (Z.eqb n 0) with false by (symmetry; apply Z.eqb_neq; lia).
+    replace (Z.ltb (- n) 0) with true by (symmetry; apply Z.ltb_lt; lia).
+    replace (Z.ltb n 0) with false by (symmetry; apply Z.ltb_ge; lia).
+    replace (- - n - 1) with (n - 1) by lia. reflexivity.
+  Qed.
+  Theorem pow_neg_err x e n : (0 < n) -> invf x = Err e -> pow_model SO invf sqrtf A x (PInt (- n)) = Err e.
+  Proof.
+    intros Hn Hi. unfold pow_model. rewrite Hi.
+    replace (Z.eqb (- n) 0) with false by (symmetry; apply Z.eqb_neq; lia).
+    replace (Z.ltb (- n) 0) with true by (symmetry; apply Z.ltb_lt; lia). reflexivity.
+  Qed.
+  (* x ** 0.5 is sqrt(x) *)
+  Theorem pow_half x : pow_model SO invf sqrtf A x PHalf = sqrtf x.
+  Proof. reflexivity. Qed.
+  (* a float exponent other than 0, 0.5, -0.5 raises TypeError (after the inverse for negative ones) *)
+  Theorem pow_float x : pow_model SO invf sqrtf A x PFloatPos = Err EType.
+  Proof. reflexivity. Qed.
+
+  (* x^(m+n) = x^m * x^n  (associativity of the geometric product) *)
+  Theorem pow_add x m n : wf x -> gpow x (m + n) == gp (gpow x m) (gpow x n).
+  Proof.
+    intros Hx. induction n as [|n IH].
+    - rewrite Nat.add_0_r. cbn [gpow]. symmetry. apply (RA gp_one_r). auto with wfdb.
+    - replace (m + S n)%nat with (S (m + n)) by lia. cbn [gpow].
+      transitivity (gp (gp (gpow x m) (gpow x n)) x).
+      { apply (RT gp_congr); auto with wfdb. reflexivity. }
+      apply (RA gp_assoc); auto with wfdb.
+  Qed.
+  Lemma gpow_comm x n : wf x -> gp x (gpow x n) == gp (gpow x n) x.
+  Proof.
+    intros Hx. pose proof (pow_add x 1 n Hx) as H1. pose proof (pow_add x n 1 Hx) as H2.
+    replace (n + 1)%nat with (1 + n)%nat in H2 by lia.
+    transitivity (gp (gpow x 1) (gpow x n)).
+    { apply (RT gp_congr); auto with wfdb; [|reflexivity]. cbn [gpow]. symmetry. apply (RA gp_one_l x Hx). }
+    rewrite <- H1, H2. apply (RT gp_congr); auto with wfdb; [reflexivity|]. cbn [gpow]. apply (RA gp_one_l x Hx).
+  Qed.
+  (* powers of the inverse are inverses of the powers: (x^n) * (xi^n) = 1 when x * xi = 1 *)
+  Theorem pow_inverse x xi n : wf x -> wf xi -> gp x xi == one -> gp (gpow x n) (gpow xi n) == one.
+  Proof.
+    intros Hx Hxi Hinv. induction n as [|n IH]; cbn [gpow].
+    - apply (RA gp_one_l). auto with wfdb.
+    - (* (x^n x)(xi^n xi) = x^n (x xi^n) xi = x^n (xi^n x)... use xi^n xi = xi xi^n *)
+      transitivity (gp (gp (gpow x n) x) (gp xi (gpow xi n))).
+      { apply (RT gp_congr); auto with wfdb; [reflexivity|]. symmetry. apply gpow_comm, Hxi. }
+      transitivity (gp (gpow x n) (gp x (gp xi (gpow xi n)))).
+      { apply (RA gp_assoc); auto with wfdb. }
+      transitivity (gp (gpow x n) (gpow xi n)); [|exact IH].
+      apply (RT gp_congr); auto with wfdb; [reflexivity|].
+      transitivity (gp (gp x xi) (gpow xi n)).
+      { symmetry. apply (RA gp_assoc); auto with wfdb. }
+      transitivity (gp one (gpow xi n)).
+      { apply (RT gp_congr); auto with wfdb. reflexivity. }
+      apply (RA gp_one_l). auto with wfdb.
+  Qed.
+
+  (* ================= 3. the algebra  E(c,t) = c + t x  of an element with scalar square ================= *)
+
+  Definition E (x : mv R) (c t : R) : mv R := add (scal c one) (scal t x).
+  Lemma WE x c t : wf (E x c t). Proof. unfold E. auto with wfdb. Qed.
+  Hint Resolve WE : wfdb.
+  Lemma cf_E x c t K : wf x -> 0 <= K < L -> cf K (E x c t) = (c * cf K one + t * cf K x)%r.
+  Proof. intros Hx HK. unfold E. rewrite cadd by auto with wfdb. rewrite !cscal. reflexivity. Qed.
+  Lemma E_congr x c t c' t' : c = c' -> t = t' -> E x c t == E x c' t'.
+  Proof. intros -> ->. reflexivity. Qed.
+
+  (* (c1 + t1 x)(c2 + t2 x) = (c1 c2 + s t1 t2) + (c1 t2 + t1 c2) x   when  x x = s *)
+  Theorem E_mul x s c1 t1 c2 t2 : wf x -> gp x x == scal s one ->
+    gp (E x c1 t1) (E x c2 t2) == E x (c1 * c2 + s * (t1 * t2))%r (c1 * t2 + t1 * c2)%r.
+  Proof.
+    intros Hx Hsq. apply eqv; auto with wfdb. intros K HK.
+    unfold E at 1 2.
+    rewrite cgp_add_l by auto with wfdb.
+    rewrite !cgp_add_r by auto with wfdb.
+    rewrite !cgp_scal_l by auto with wfdb.
+    rewrite !cgp_scal_r by auto with wfdb.
+    rewrite (RA gp_one_l one Wone K), (RA gp_one_l x Hx K), (RA gp_one_r x Hx K), (Hsq K).
+    rewrite cf_E by assumption. rewrite cscal. ring.
+  Qed.
+
+  (* ================= 4. the square root of a Study number ================= *)
+
+  Local Notation two := (rI + rI)%r.
+  Local Notation half := (Series.half SO).
+
+  Lemma half_spec v : (two * half v)%r = v.
+  Proof.
+    unfold Series.half. cbn [o_divn]. pose proof (Hdiv v 2%nat ltac:(lia)) as H. cbn [rnat] in H.
+    rewrite <- H at 2. change (Z.of_nat 2) with 2. ring.
+  Qed.
+
+  Lemma E_add_scalar x a : wf x -> E x a rI == add (scalar_mv a) x.
+  Proof.
+    intros Hx. apply eqv; auto with wfdb. intros K HK. rewrite cf_E, cadd by auto with wfdb.
+    unfold scalar_mv. rewrite (RN cf_scalar), (RN cf_one). destruct (Z.eqb K 0); ring.
+  Qed.
+  (* E(c,e) is a square root of a + bI as soon as  c^2 + s e^2 = a  and  2 c e = 1 *)
+  Lemma E_square_root bI s a c e : wf bI -> gp bI bI == scal s one ->
+    (c * c + s * (e * e))%r = a -> (c * e + e * c)%r = rI ->
+    gp (E bI c e) (E bI c e) == add (scalar_mv a) bI.
+  Proof.
+    intros Hb Hsq H1 H2. rewrite (E_mul bI s c e c e Hb Hsq). rewrite H1, H2. apply E_add_scalar, Hb.
+  Qed.
+  (* the ring identity behind codegen_sqrt: with r^2 = a^2 - s, 2 c^2 = a + r and 2 c e = 1 *)
+  Lemma study_ring_identity s a r c e :
+    (r * r)%r = (a * a - s)%r -> (two * (c * c))%r = (a + r)%r -> (two * (c * e))%r = rI ->
+    (c * c + s * (e * e))%r = a /\ (c * e + e * c)%r = rI.
+  Proof.
+    intros Hr Hc He. split; [|rewrite <- He; ring].
+    assert (Hs : s = ((a - r) * (two * (c * c)))%r).
+    { rewrite Hc. transitivity (a * a - r * r)%r; [rewrite Hr; ring | ring]. }
+    assert (E2 : (two * (c * c + s * (e * e)))%r = (two * a)%r).
+    { rewrite Hs at 1. transitivity (two * (c * c) + (a - r) * ((two * (c * e)) * (two * (c * e))))%r; [ring|].
+      rewrite Hc, He. ring. }
+    transitivity ((two * (c * e)) * (c * c + s * (e * e)))%r; [rewrite He; ring|].
+    transitivity ((c * e) * (two * (c * c + s * (e * e))))%r; [ring|].
+    rewrite E2. transitivity ((two * (c * e)) * a)%r; [ring | rewrite He; ring].
+  Qed.
+
+  Section SqrtModel.
+  Variable F : mv R -> mv R.
+  Hypothesis HF : filter_ok F.
+  Lemma WF' y : wf y -> wf (F y). Proof. intros H; apply HF, H. Qed.
+  Lemma EF' y : wf y -> F y == y. Proof. intros H; apply HF, H. Qed.
+  Hint Resolve WF' : wfdb.
+
+  (* res = c + bI * c2_inv  is  E(c, c2_inv) *)
+  Lemma sqrt_formula_E bI c e : wf bI ->
+    wf (sqrt_formula_with SO F A bI c e) /\ sqrt_formula_with SO F A bI c e == E bI c e.
+  Proof.
+    intros Hb. unfold sqrt_formula_with. cbn [s_ops]. split; [auto with wfdb|].
+    rewrite (EF' _ (Wadd _ _)). unfold E. apply (RT add_congr); auto with wfdb.
+    - unfold scalar_mv. apply (RT scalar_scal).
+    - rewrite (EF' _ (Wgp _ _)). apply (RA gp_scalar_r). exact Hb.
+  Qed.
+
+  (* THE algebraic statement: for x = a + bI with (bI)^2 = s a scalar, the formula assembled by
+     codegen_sqrt squares to x provided
+        r^2 = a^2 - s   (r = normS ** 0.5 is a square root of the Study norm),
+        2 c^2 = a + r   (c = (0.5 (a + r)) ** 0.5 is a square root),
+        2 c e = 1       (e = 0.5 / c: c is invertible).
+     None of the three is checked by the code (over the reals they hold exactly when a^2 - s >= 0 and
+     a + r > 0: the Study numbers with positive scalar part, and e.g. all a > 0 when s <= 0). *)
+  Theorem sqrt_formula_square bI s a r c e : wf bI -> gp bI bI == scal s one ->
+    (r * r)%r = (a * a - s)%r -> (two * (c * c))%r = (a + r)%r -> (two * (c * e))%r = rI ->
+    let y := sqrt_formula_with SO F A bI c e in gp y y == add (scalar_mv a) bI.
+  Proof.
+    intros Hb Hsq Hr Hc He y. destruct (sqrt_formula_E bI c e Hb) as [Hy Hye]. fold y in Hy, Hye.
+    destruct (study_ring_identity s a r c e Hr Hc He) as [H1 H2].
+    transitivity (gp (E bI c e) (E bI c e)).
+    { apply (RT gp_congr); auto with wfdb. }
+    apply (E_square_root bI s a c e Hb Hsq H1 H2).
+  Qed.
+  (* the branch `if not bI_sq`:  (bI)^2 = 0, c = a ** 0.5 *)
+  Theorem sqrt_formula_square_null bI a c e : wf bI -> gp bI bI == [] ->
+    (c * c)%r = a -> (two * (c * e))%r = rI ->
+    let y := sqrt_formula_with SO F A bI c e in gp y y == add (scalar_mv a) bI.
+  Proof.
+    intros Hb Hsq Hc He y. destruct (sqrt_formula_E bI c e Hb) as [Hy Hye]. fold y in Hy, Hye.
+    transitivity (gp (E bI c e) (E bI c e)).
+    { apply (RT gp_congr); auto with wfdb. }
+    apply (E_square_root bI rO a c e Hb).
+    - rewrite Hsq. symmetry. apply (RT scal_zero).
+    - rewrite <- Hc. ring.
+    - rewrite <- He. ring.
+  Qed.
+
+  (* --- the model function --- *)
+  Lemma grade0_wf x : wf (grade0 SO x).
+  Proof. unfold grade0. destruct (zin 0 (keys x)); auto with wfdb. Qed.
+  Hint Resolve grade0_wf : wfdb.
+  Lemma grade0_cf x K : cf K (grade0 SO x) = if Z.eqb K 0 then cf 0 x else rO.
+  Proof.
+    unfold grade0. cbn [s_ops]. destruct (zin 0 (keys x)) eqn:E.
+    - apply (RN cf_scalar).
+    - rewrite cnil. destruct (Z.eqb K 0); [|reflexivity]. symmetry. apply (RN coeff_notin).
+      apply zin_false_iff. exact E.
+  Qed.
+  Lemma grade0_scal x : grade0 SO x == scal (cf 0 x) one.
+  Proof.
+    intros K. rewrite grade0_cf, cscal, (RN cf_one). destruct (Z.eqb K 0); ring.
+  Qed.
+  (* x = a + bI *)
+  Lemma study_split x : wf x -> wf (study_bI SO F A x) /\ x == add (scalar_mv (cf 0 x)) (study_bI SO F A x).
+  Proof.
+    intros Hx. unfold study_bI. cbn [s_ops]. split; [auto with wfdb|].
+    apply eqv; auto with wfdb. intros K HK.
+    rewrite cadd by auto with wfdb. rewrite (EF' _ (Wsub _ _) K), csub by auto with wfdb.
+    rewrite grade0_cf. unfold scalar_mv. rewrite (RN cf_scalar). destruct (Z.eqb K 0) eqn:EK.
+    - apply Z.eqb_eq in EK. subst K. ring.
+    - ring.
+  Qed.
+  Lemma study_normS_spec x s : wf x -> gp (study_bI SO F A x) (study_bI SO F A x) == scal s one ->
+    study_normS SO F A x = (cf 0 x * cf 0 x - s)%r.
+  Proof.
+    intros Hx Hsq. unfold study_normS. cbn [s_ops].
+    assert (H0 : 0 <= 0 < L) by (pose proof (L_pos A); lia).
+    rewrite (EF' _ (Wsub _ _) 0), csub by auto with wfdb.
+    rewrite (EF' _ (Wgp _ _) 0), (EF' _ (Wgp _ _) 0). rewrite (Hsq 0).
+    rewrite (RT gp_congr A _ (scal (cf 0 x) one) _ (scal (cf 0 x) one)
+               (grade0_wf x) (Wscal _ _ Wone) (grade0_wf x) (Wscal _ _ Wone) (grade0_scal x) (grade0_scal x) 0).
+    rewrite cgp_scal_l, cgp_scal_r by auto with wfdb. rewrite (RA gp_one_l one Wone 0).
+    rewrite cscal, (RN cf_one). cbn [Z.eqb]. ring.
+  Qed.
+
+  (* 4a. a pure scalar: {0: x.e ** 0.5} *)
+  Theorem sqrt_model_scalar x : wf x -> is_scalar_only x = true ->
+    let v := cf 0 x in (rsqrt v * rsqrt v)%r = v ->
+    let y := sqrt_model_with SO F A x in gp y y == x.
+  Proof.
+    intros Hx Hs v Hv y. unfold y, sqrt_model_with. rewrite Hs. cbn [o_sqrt s_ops]. fold v.
+    assert (Ex : x = [(0, v)]).
+    { unfold is_scalar_only in Hs. apply andb_true_iff in Hs. destruct Hs as [Hne Hall].
+      destruct Hx as [Hnd _]. destruct x as [|[k w] rest]; [discriminate|].
+      cbn [keys map fst forallb] in Hall, Hnd. apply andb_true_iff in Hall. destruct Hall as [Hk Hrest].
+      apply Z.eqb_eq, Bits.popcount_eq_0 in Hk. subst k.
+      destruct rest as [|[k' w'] rest'].
+      - unfold v. rewrite (RN coeff_cons). reflexivity.
+      - exfalso. cbn [map fst forallb] in Hrest, Hnd. apply andb_true_iff in Hrest. destruct Hrest as [Hk' _].
+        apply Z.eqb_eq, Bits.popcount_eq_0 in Hk'. subst k'. inversion Hnd as [|? ? Hn _]. apply Hn. left. reflexivity. }
+    transitivity [(0, v)]; [|rewrite <- Ex; reflexivity].
+    rewrite (RA gp_scalar_l (rsqrt v) [(0, rsqrt v)] (Wscalar _)).
+    unfold Algebra.scal. cbn [map fst snd]. rewrite Hv. reflexivity.
+  Qed.
+
+  (* 4b. the general branch *)
+  Theorem sqrt_model_study x s : wf x -> is_scalar_only x = false ->
+    let a := cf 0 x in let bI := study_bI SO F A x in
+    gp bI bI == scal s one -> mv_truthy (F (gp bI bI)) = true ->
+    let r := rsqrt (a * a - s)%r in (r * r)%r = (a * a - s)%r ->
+    let c := rsqrt (half (a + r)%r) in (c * c)%r = half (a + r)%r -> (c * rinv c)%r = rI ->
+    let y := sqrt_model_with SO F A x in gp y y == x.
+  Proof.
+    intros Hx Hs a bI Hsq Ht r Hr c Hc Hci y.
+    destruct (study_split x Hx) as [Hb Hsplit]. fold bI in Hb, Hsplit. fold a in Hsplit.
+    assert (Ey : y = sqrt_formula_with SO F A bI c (half (rinv c))).
+    { unfold y, sqrt_model_with. rewrite Hs. unfold study_c. cbn [s_ops o_sqrt o_inv o_add].
+      fold bI. rewrite Ht. rewrite (study_normS_spec x s Hx Hsq). rewrite grade0_cf. cbn [Z.eqb]. reflexivity. }
+    rewrite Ey. transitivity (add (scalar_mv a) bI); [|symmetry; exact Hsplit].
+    apply (sqrt_formula_square bI s a r c (half (rinv c)) Hb Hsq Hr).
+    - rewrite Hc. apply half_spec.
+    - transitivity (c * (two * half (rinv c)))%r; [ring|]. rewrite half_spec. exact Hci.
+  Qed.
+
+  (* 4c. the branch `if not bI_sq` *)
+  Theorem sqrt_model_null x : wf x -> is_scalar_only x = false ->
+    let a := cf 0 x in let bI := study_bI SO F A x in
+    mv_truthy (F (gp bI bI)) = false ->
+    let c := rsqrt a in (c * c)%r = a -> (c * rinv c)%r = rI ->
+    let y := sqrt_model_with SO F A x in gp y y == x.
+  Proof.
+    intros Hx Hs a bI Ht c Hc Hci y.
+    destruct (study_split x Hx) as [Hb Hsplit]. fold bI in Hb, Hsplit. fold a in Hsplit.
+    assert (Ey : y = sqrt_formula_with SO F A bI c (half (rinv c))).
+    { unfold y, sqrt_model_with. rewrite Hs. unfold study_c. cbn [s_ops o_sqrt o_inv o_add].
+      fold bI. rewrite Ht. rewrite grade0_cf. cbn [Z.eqb]. reflexivity. }
+    rewrite Ey. transitivity (add (scalar_mv a) bI); [|symmetry; exact Hsplit].
+    apply (sqrt_formula_square_null bI a c (half (rinv c)) Hb); [|exact Hc|].
+    - rewrite <- (EF' _ (Wgp bI bI)). destruct (F (gp bI bI)); [reflexivity | discriminate].
+    - transitivity (c * (two * half (rinv c)))%r; [ring|]. rewrite half_spec. exact Hci.
+  Qed.
+  End SqrtModel.
+
+  (* ================= 5. norm, normalized ================= *)
+
+  Local Notation reverse := (Codegen.reverse O A).
+  Local Notation normsq := (Composite.normsq O A).
+  Lemma Wreverse x : wf (reverse x).
+  Proof. unfold Codegen.reverse. apply (wfmv_cs R A SH). Qed.
+  Hint Resolve Wreverse : wfdb.
+  Lemma inr_In K : 0 <= K < L -> In K (canon_keys A).
+  Proof. intros H. apply (sh_keys A SH). exact H. Qed.
+  Lemma reverse_scal c x : wf x -> reverse (scal c x) == scal c (reverse x).
+  Proof.
+    intros Hx. apply eqv; auto with wfdb. intros K HK.
+    rewrite cscal. rewrite (RT reverse_coeff A (scal c x) K (inr_In K HK) (proj1 (Wscal c x Hx))).
+    rewrite (RT reverse_coeff A x K (inr_In K HK) (proj1 Hx)).
+    rewrite cscal. destruct (involution_flips grades_reverse K); ring.
+  Qed.
+  Lemma normsq_eq x : normsq x = gp x (reverse x).
+  Proof. reflexivity. Qed.
+  Lemma Wnormsq x : wf (normsq x). Proof. rewrite normsq_eq. auto with wfdb. Qed.
+  Hint Resolve Wnormsq : wfdb.
+  Lemma normsq_congr x y : wf x -> wf y -> x == y -> normsq x == normsq y.
+  Proof.
+    intros Hx Hy He. rewrite !normsq_eq. apply (RT gp_congr); auto with wfdb.
+    apply (RT reverse_congr); [apply Hx | apply Hy | exact He].
+  Qed.
+  (* normsq(c x) = c^2 normsq(x) *)
+  Theorem normsq_scal c x : wf x -> normsq (scal c x) == scal (c * c)%r (normsq x).
+  Proof.
+    intros Hx. rewrite !normsq_eq.
+    transitivity (gp (scal c x) (scal c (reverse x))).
+    { apply (RT gp_congr); auto with wfdb; [reflexivity | apply reverse_scal, Hx]. }
+    rewrite (RA gp_scal_l c x (scal c (reverse x))) by auto with wfdb.
+    rewrite (RT scal_congr c _ _ (RA gp_scal_r c x (reverse x) Hx (Wreverse x))).
+    apply (RT scal_scal).
+  Qed.
+  (* the algebraic core of `normalized`: if normsq x is the scalar n = r^2 and r is invertible,
+     x / r has squared norm 1 *)
+  Theorem normalized_alg x n r r' : wf x -> normsq x == scal n one -> (r * r)%r = n -> (r * r')%r = rI ->
+    normsq (gp x (scalar_mv r')) == one.
+  Proof.
+    intros Hx Hn Hr Hi.
+    transitivity (normsq (scal r' x)).
+    { apply normsq_congr; auto with wfdb. apply (RA gp_scalar_r). exact Hx. }
+    rewrite (normsq_scal r' x Hx). rewrite (RT scal_congr _ _ _ Hn). rewrite (RT scal_scal).
+    replace ((r' * r') * n)%r with rI; [apply (RT scal_one)|].
+    rewrite <- Hr. transitivity ((r * r') * (r * r'))%r; [rewrite Hi; ring | ring].
+  Qed.
+
+  Section NormModel.
+  Variable F : mv R -> mv R.
+  Hypothesis HF : filter_ok F.
+  (* when the generated normsq stores the scalar blade only, norm() takes the scalar branch of sqrt *)
+  Theorem norm_scalar_only x n : normsq_with O F A x = [(0, n)] -> norm_with SO F A x = [(0, rsqrt n)].
+  Proof. intros H. unfold norm_with. cbn [s_ops]. rewrite H. reflexivity. Qed.
+  (* norm squared is normsq *)
+  Theorem norm_square x n : normsq_with O F A x = [(0, n)] -> (rsqrt n * rsqrt n)%r = n ->
+    gp (norm_with SO F A x) (norm_with SO F A x) == normsq_with O F A x.
+  Proof.
+    intros H Hr. rewrite (norm_scalar_only x n H), H.
+    rewrite (RA gp_scalar_l (rsqrt n) [(0, rsqrt n)] (Wscalar _)).
+    unfold Algebra.scal. cbn [map fst snd]. rewrite Hr. reflexivity.
+  Qed.
+  (* normalized(x) = x / norm(x) has squared norm 1: given that normsq x is the scalar n, that the
+     norm computed is a scalar r with r^2 = n, and an inverse of it (division is C07's subject) *)
+  Theorem normalized_spec x n r ni : wf x -> normsq x == scal n one ->
+    norm_with SO F A x == scal r one -> wf (norm_with SO F A x) -> (r * r)%r = n ->
+    invf (norm_with SO F A x) = Ok ni -> wf ni -> gp (norm_with SO F A x) ni == one ->
+    exists t, normalized_with SO F invf A x = Ok t /\ wf t /\ normsq t == one.
+  Proof.
+    intros Hx Hn HN HNw Hr Hi Hniw Hinv.
+    unfold normalized_with, div_with. rewrite Hi. cbn [bind s_ops].
+    eexists. split; [reflexivity|]. destruct (HF (gp x ni) (Wgp x ni)) as [Htw Hte]. split; [exact Htw|].
+    assert (H0 : 0 <= 0 < L) by (pose proof (L_pos A); lia).
+    (* r * ni = 1 *)
+    assert (H1 : scal r ni == one).
+    { rewrite <- Hinv. symmetry.
+      transitivity (gp (scal r one) ni); [apply (RT gp_congr); auto with wfdb; reflexivity|].
+      rewrite (RA gp_scal_l r one ni Wone Hniw). apply (RT scal_congr). apply (RA gp_one_l). exact Hniw. }
+    set (r' := cf 0 ni).
+    assert (Hrr : (r * r')%r = rI).
+    { pose proof (H1 0) as H. rewrite cscal, (RN cf_one) in H. exact H. }
+    assert (H2 : ni == scalar_mv r').
+    { apply eqv; auto with wfdb. intros K HK. unfold scalar_mv. rewrite (RN cf_scalar).
+      destruct (Z.eqb K 0) eqn:EK; [apply Z.eqb_eq in EK; subst K; reflexivity|].
+      pose proof (H1 K) as H. rewrite cscal, (RN cf_one), EK in H.
+      transitivity ((r * r') * cf K ni)%r; [rewrite Hrr; ring|].
+      transitivity (r' * (r * cf K ni))%r; [ring | rewrite H; ring]. }
+    transitivity (normsq (gp x (scalar_mv r'))).
+    { apply normsq_congr; auto with wfdb. rewrite Hte. apply (RT gp_congr); auto with wfdb. reflexivity. }
+    apply (normalized_alg x n r r' Hx Hn Hr Hrr).
+  Qed.
+  End NormModel.
+
+  (* ================= 6. exp of an element that squares to a scalar ================= *)
+
+  Section Exp.
+  Variable x : mv R.
+  Hypothesis Hx : wf x.
+  Variable s : R.
+  Hypothesis Hsq : gp x x == scal s one.
+
+  (* x^(2j) = s^j,  x^(2j+1) = s^j x *)
+  Lemma gpow_even_odd j : gpow x (2 * j) == scal (rpow s j) one /\ gpow x (2 * j + 1) == scal (rpow s j) x.
+  Proof.
+    induction j as [|j [IH1 IH2]].
+    - cbn [Nat.mul Nat.add gpow rpow]. split; [symmetry; apply (RT scal_one)|].
+      rewrite (RA gp_one_l x Hx). symmetry. apply (RT scal_one).
+    - assert (E1 : gpow x (2 * S j) == scal (rpow s (S j)) one).
+      { replace (2 * S j)%nat with (S (2 * j + 1)) by lia. cbn [gpow rpow].
+        transitivity (gp (scal (rpow s j) x) x); [apply (RT gp_congr); auto with wfdb; reflexivity|].
+        rewrite (RA gp_scal_l (rpow s j) x x Hx Hx). rewrite (RT scal_congr _ _ _ Hsq). rewrite (RT scal_scal).
+        apply eqv; auto with wfdb. intros K HK. rewrite !cscal. ring. }
+      split; [exact E1|].
+      replace (2 * S j + 1)%nat with (S (2 * S j)) by lia. cbn [gpow].
+      transitivity (gp (scal (rpow s (S j)) one) x); [apply (RT gp_congr); auto with wfdb; reflexivity|].
+      rewrite (RA gp_scal_l (rpow s (S j)) one x Wone Hx). apply (RT scal_congr). apply (RA gp_one_l x Hx).
+  Qed.
+
+  (* the k-th term x^k/k! of the power series, and the even / odd scalar series in s *)
+  Definition pterm (k : nat) : mv R := scal (invfact k) (gpow x k).
+  Definition ev (n : nat) : R := rsum (map (fun j => (rpow s j * invfact (2 * j))%r) (seq 0 (S n))).
+  Definition od (n : nat) : R := rsum (map (fun j => (rpow s j * invfact (2 * j + 1))%r) (seq 0 (S n))).
+  Lemma Wpterm k : wf (pterm k). Proof. unfold pterm. auto with wfdb. Qed.
+  Hint Resolve Wpterm : wfdb.
+
+  Lemma cf_pterm_even j K : cf K (pterm (2 * j)) = ((rpow s j * invfact (2 * j)) * cf K one)%r.
+  Proof. unfold pterm. rewrite cscal, (proj1 (gpow_even_odd j) K), cscal. ring. Qed.
+  Lemma cf_pterm_odd j K : cf K (pterm (2 * j + 1)) = ((rpow s j * invfact (2 * j + 1)) * cf K x)%r.
+  Proof. unfold pterm. rewrite cscal, (proj2 (gpow_even_odd j) K), cscal. ring. Qed.
+
+  (* the partial sums of the power series:
+       sum_{k <= 2n+1} x^k/k!  =  ( sum_{j<=n} s^j/(2j)! )  +  ( sum_{j<=n} s^j/(2j+1)! ) x
+     the two scalar sums are the partial sums of  cosh(sqrt s) and sinh(sqrt s)/sqrt s  (s > 0),
+     cos(sqrt -s) and sin(sqrt -s)/sqrt -s  (s < 0),  1 and 1  (s = 0) *)
+  Theorem exp_formula_algebraic n : msum (map pterm (seq 0 (2 * n + 2))) == E x (ev n) (od n).
+  Proof.
+    apply eqv; auto with wfdb. intros K HK.
+    rewrite cf_msum; [| |exact HK].
+    2:{ apply Forall_forall. intros y Hy. apply in_map_iff in Hy. destruct Hy as [i [<- _]]. auto with wfdb. }
+    rewrite map_map, cf_E by assumption.
+    induction n as [|n IH].
+    - cbn [Nat.mul Nat.add seq map Sparse.rsum]. unfold ev, od. cbn [seq map Sparse.rsum].
+      change 0%nat with (2 * 0)%nat at 1. rewrite cf_pterm_even.
+      change 1%nat with (2 * 0 + 1)%nat at 1. rewrite cf_pterm_odd. ring.
+    - replace (2 * S n + 2)%nat with ((2 * n + 2) + 2)%nat by lia.
+      rewrite seq_app, map_app, (RT rsum_app), IH. cbn [seq map Sparse.rsum Nat.add].
+      replace (2 * n + 2)%nat with (2 * S n)%nat by lia. rewrite cf_pterm_even.
+      replace (S (2 * S n)) with (2 * S n + 1)%nat by lia. rewrite cf_pterm_odd.
+      unfold ev, od. rewrite (seq_S (S n)), !map_app, !(RT rsum_app). cbn [map Sparse.rsum Nat.add]. ring.
+  Qed.
+  (* a square-zero element: exp(x) = 1 + x exactly, from the third term on *)
+  Lemma rpow_zero j : rpow rO (S j) = rO. Proof. cbn [rpow]. ring. Qed.
+  End Exp.
+
+  Theorem exp_zero_square x n : wf x -> gp x x == [] -> msum (map (pterm x) (seq 0 (2 * n + 2))) == E x rI rI.
+  Proof.
+    intros Hx H0.
+    assert (Hsq : gp x x == scal rO one) by (rewrite H0; symmetry; apply (RT scal_zero)).
+    rewrite (exp_formula_algebraic x Hx rO Hsq n).
+    assert (Hz : forall (g : nat -> R) m, rsum (map (fun j => (rpow rO j * g j)%r) (seq 0 (S m))) = g 0%nat).
+    { intros g m. cbn [seq map Sparse.rsum rpow]. rewrite <- seq_shift, map_map.
+      rewrite (rsum_seq_zero (fun j => (rpow rO (S j) * g (S j))%r) 0 m); [ring|].
+      intros k _. rewrite rpow_zero. ring. }
+    apply E_congr.
+    - unfold ev. rewrite (Hz (fun j => invfact (2 * j)) n). reflexivity.
+    - unfold od. rewrite (Hz (fun j => invfact (2 * j + 1)) n). apply invfact_1.
+  Qed.
+
+  (* --- the model function MultiVector.exp --- *)
+  Section ExpModel.
+  Variable truth : R -> res bool.
+  Variable classify : R -> ll_class.
+  Variable tf : exp_triple -> (R -> R) * (R -> R) * (R -> R).
+  (* the truth value of a number: falsy only for zero *)
+  Hypothesis Htruth : forall v, truth v = Ok false -> v = rO.
+
+  Lemma filter_truth_ok y ll : wf y -> filter_truth truth y = Ok ll -> wf ll /\ ll == y /\ incl (keys ll) (keys y).
+  Proof.
+    intros [Hnd Hin]. revert ll. induction y as [|[k v] y IH]; intros ll E; cbn [filter_truth] in E.
+    - inversion E; subst. split; [apply Wnil|]. split; [reflexivity | intros a Ha; exact Ha].
+    - destruct (truth v) as [b|e] eqn:Et; [|discriminate]. cbn [bind] in E.
+      destruct (filter_truth truth y) as [r'|e] eqn:Er; [|discriminate]. cbn [bind] in E.
+      cbn [keys map fst] in Hnd, Hin. inversion Hnd as [|? ? Hk Hnd']; subst.
+      destruct (IH Hnd' (fun a Ha => Hin a (or_intror Ha)) r' eq_refl) as [[Hr1 Hr2] [Hre Hincl]].
+      inversion E; subst ll. destruct b.
+      + split; [|split].
+        * split; [cbn [keys map fst]; constructor; [intros Hc; apply Hk, Hincl, Hc | exact Hr1]|].
+          intros a [<-|Ha]; [apply Hin; left; reflexivity | apply Hr2, Ha].
+        * intros K. rewrite !(RN coeff_cons). destruct (Z.eqb k K); [reflexivity | apply Hre].
+        * intros a [<-|Ha]; [left; reflexivity | right; apply Hincl, Ha].
+      + split; [split; assumption|]. split.
+        * intros K. rewrite (RN coeff_cons). destruct (Z.eqb k K) eqn:EK.
+          -- apply Z.eqb_eq in EK. subst K. rewrite (Htruth v Et). rewrite (Hre k).
+             apply (RN coeff_notin). exact Hk.
+          -- apply Hre.
+        * intros a Ha. right. apply Hincl, Ha.
+  Qed.
+
+  (* a scalar-only or empty multivector is its scalar coefficient *)
+  Lemma not_impl_false_scalar ll : wf ll -> exp_not_implemented ll = false -> ll == scal (cf 0 ll) one.
+  Proof.
+    intros [Hnd Hin] H. unfold exp_not_implemented in H.
+    destruct ll as [|[k v] rest]; [intros K; rewrite cscal; cbn; ring|].
+    cbn [mv_truthy andb] in H. apply negb_false_iff in H. unfold is_scalar_only in H.
+    cbn [mv_truthy andb keys map fst forallb] in H. apply andb_true_iff in H. destruct H as [Hk Hrest].
+    apply Z.eqb_eq, Bits.popcount_eq_0 in Hk. subst k.
+    destruct rest as [|[k' v'] rest'].
+    - intros K. rewrite cscal, (RN cf_one), !(RN coeff_cons). cbn [Z.eqb]. rewrite (Z.eqb_sym 0 K).
+      destruct (Z.eqb K 0); [ring | rewrite (RN coeff_nil); ring].
+    - exfalso. cbn [map fst forallb] in Hrest. apply andb_true_iff in Hrest. destruct Hrest as [Hk' _].
+      apply Z.eqb_eq, Bits.popcount_eq_0 in Hk'. subst k'. cbn [keys map fst] in Hnd.
+      inversion Hnd as [|? ? Hn _]. apply Hn. left. reflexivity.
+  Qed.
+
+  (* what exp returns: with ll = (x*x).filter() scalar, s = ll.e and (sqrt, cosh, sinhc) the triple
+     selected for the class of s, the result is  cosh(l) + sinhc(l) x,  l = sqrt(s), and x*x = s *)
+  Theorem exp_model_spec x r : wf x -> exp_model SO truth classify tf A x = Ok r ->
+    exists ll, filter_truth truth (gp x x) = Ok ll /\ exp_not_implemented ll = false /\
+      let s := cf 0 ll in gp x x == scal s one /\
+      let '(fsqrt, fcosh, fsinhc) := tf (exp_branch (classify s)) in
+      wf r /\ r == E x (fcosh (fsqrt s)) (fsinhc (fsqrt s)).
+  Proof.
+    intros Hx He. unfold exp_model in He. cbn [s_ops] in He.
+    destruct (filter_truth truth (gp x x)) as [ll|e] eqn:Ef; [|discriminate]. cbn [bind] in He.
+    destruct (exp_not_implemented ll) eqn:En; [discriminate|].
+    destruct (filter_truth_ok (gp x x) ll (Wgp x x) Ef) as [Hllw [Hlle _]].
+    exists ll. split; [reflexivity|]. split; [exact En|]. cbn zeta. split.
+    - rewrite <- Hlle. apply not_impl_false_scalar; assumption.
+    - destruct (tf (exp_branch (classify (cf 0 ll)))) as [[fsqrt fcosh] fsinhc].
+      inversion He; subst r. split; [auto with wfdb|].
+      apply eqv; auto with wfdb. intros K HK. rewrite cf_E, cadd by auto with wfdb.
+      rewrite (RA gp_scalar_r _ x Hx K), cscal. unfold scalar_mv. rewrite (RN cf_scalar), (RN cf_one).
+      destruct (Z.eqb K 0); ring.
+  Qed.
+  (* NotImplementedError is raised exactly when the filtered square stores a non-scalar blade ... *)
+  Theorem exp_raises x ll : filter_truth truth (gp x x) = Ok ll ->
+    (exp_model SO truth classify tf A x = Err ENotImpl <-> exp_not_implemented ll = true).
+  Proof.
+    intros Ef. unfold exp_model. cbn [s_ops]. rewrite Ef. cbn [bind].
+    destruct (exp_not_implemented ll); [split; reflexivity|].
+    destruct (tf _) as [[? ?] ?]. split; discriminate.
+  Qed.
+  (* ... so never for an element whose square is a scalar, when the truth test is an exact zero test *)
+  Theorem exp_defined x s ll : wf x -> gp x x == scal s one ->
+    (forall v, truth v = Ok true -> v <> rO) ->
+    filter_truth truth (gp x x) = Ok ll -> exp_not_implemented ll = false.
+  Proof.
+    intros Hx Hsq Hnz Ef.
+    destruct (filter_truth_ok (gp x x) ll (Wgp x x) Ef) as [[Hnd Hin] [Hlle _]].
+    assert (Hk : forall k v, In (k, v) ll -> k = 0).
+    { assert (Hstored : forall y ll', filter_truth truth y = Ok ll' -> forall k v, In (k, v) ll' -> v <> rO).
+      { induction y as [|[k0 v0] y IH]; intros ll' E k v Hkv; cbn [filter_truth] in E.
+        - inversion E; subst. destruct Hkv.
+        - destruct (truth v0) as [b|e] eqn:Et; [|discriminate]. cbn [bind] in E.
+          destruct (filter_truth truth y) as [r'|e] eqn:Er; [|discriminate]. cbn [bind] in E.
+          inversion E; subst ll'. destruct b.
+          + destruct Hkv as [Hkv|Hkv]; [inversion Hkv; subst; apply Hnz, Et | apply (IH r' eq_refl k v Hkv)].
+          + apply (IH r' eq_refl k v Hkv). }
+      intros k v Hkv. destruct (Z.eq_dec k 0) as [|Hne]; [assumption|]. exfalso.
+      apply (Hstored _ _ Ef k v Hkv).
+      rewrite <- (RN coeff_in k v ll Hnd Hkv). rewrite (Hlle k), (Hsq k), cscal, (RN cf_one).
+      replace (Z.eqb k 0) with false by (symmetry; apply Z.eqb_neq; exact Hne). ring. }
+    unfold exp_not_implemented. destruct ll as [|[k v] rest]; [reflexivity|].
+    cbn [mv_truthy andb]. apply negb_false_iff. unfold is_scalar_only. cbn [mv_truthy andb].
+    apply forallb_forall. intros k' Hk'. unfold keys in Hk'. apply in_map_iff in Hk'.
+    destruct Hk' as [[k'' v''] [<- Hin']]. cbn [fst]. rewrite (Hk k'' v'' Hin'). reflexivity.
+  Qed.
+  (* taking the truth value of a coefficient can itself raise (numpy arrays: ValueError); exp then raises
+     that error instead of returning the exponential — finding F11 *)
+  Theorem exp_truth_error x k v rest e : gp x x = (k, v) :: rest -> truth v = Err e ->
+    exp_model SO truth classify tf A x = Err e.
+  Proof. intros Eg Et. unfold exp_model. cbn [s_ops]. rewrite Eg. cbn [filter_truth]. rewrite Et. reflexivity. Qed.
+  End ExpModel.
+
+  (* the branch selection: each triple is installed for exactly one class of ll *)
+  Theorem exp_branch_sound c :
+    match exp_branch c with
+    | THyp => c = LPos          (* cosh / sinh(l)/l, l = sqrt(s): only for a positive python number *)
+    | TUnit => c = LZero        (* 1, 1: only for a python number equal to 0 *)
+    | TTrigSym => c = LExpr     (* sympy cos / sinc of sqrt(-s) *)
+    | TTrigNum => c = LOther    (* numpy cos / sinc of sqrt(-s): negative numbers and everything else *)
+    end.
+  Proof. destruct c; reflexivity. Qed.
 End Series.
